@@ -6,6 +6,7 @@ require (
 	github.com/anishathalye/porcupine v1.3.0
 	github.com/cnotch/ipchub v0.0.0
 	github.com/cnotch/xlog v0.0.0-20201208005456-cfda439cd3a0
+	github.com/gorilla/websocket v1.4.2
 )
 
 require (
@@ -14,7 +15,6 @@ require (
 	github.com/cnotch/queue v0.0.0-20201224060551-4191569ce8f6 // indirect
 	github.com/cnotch/scheduler v0.0.0-20200522024700-1d2da93eefc5 // indirect
 	github.com/emitter-io/address v1.0.0 // indirect
-	github.com/gorilla/websocket v1.4.2 // indirect
 	github.com/kelindar/process v0.0.0-20170730150328-69a29e249ec3 // indirect
 	github.com/kelindar/rate v1.0.0 // indirect
 	github.com/kelindar/tcp v1.0.0 // indirect
